@@ -327,13 +327,18 @@ pub fn validate(fl: &Flat, out: &Value) -> (Vec<Finding>, Facts, Parsed) {
             if fl.depots[ed].loc != Some(fl.act_end_loc(last)) {
                 expected.push((name(Some(fl.act_end_loc(last))), name(fl.depots[ed].loc), Inst64::At(fl.act_end(last)), Inst64::Latest));
             }
+            // Legs from / to the overflow depot (located nowhere) are no location change between two
+            // places of the instance: whether and how they are listed is left to the implementation.
+            let known = |n: &String| fl.loc_by_id.contains_key(n);
+            let expected: Vec<(String, String, Inst64, Inst64)> = expected.into_iter().filter(|e| known(&e.0) && known(&e.1)).collect();
+            let listed: Vec<&(String, String, Inst64, Inst64, String)> = v.dead_heads.iter().filter(|d| known(&d.0) && known(&d.1)).collect();
             facts.dead_head_trips += expected.len();
-            let got: Vec<(String, String)> = v.dead_heads.iter().map(|d| (d.0.clone(), d.1.clone())).collect();
+            let got: Vec<(String, String)> = listed.iter().map(|d| (d.0.clone(), d.1.clone())).collect();
             let exp: Vec<(String, String)> = expected.iter().map(|d| (d.0.clone(), d.1.clone())).collect();
             if got != exp {
                 fnd(&mut fs, "C03", format!("vehicle {}: listed dead-head trips {:?} != its location changes {:?}", v.id, got, exp));
             } else {
-                for (d, e) in v.dead_heads.iter().zip(expected.iter()) {
+                for (d, e) in listed.iter().zip(expected.iter()) {
                     if !(e.2 <= d.2 && d.2 <= d.3 && d.3 <= e.3) {
                         fnd(&mut fs, "C03", format!("vehicle {}: dead-head trip {}->{} scheduled {:?}..{:?} outside its gap {:?}..{:?}", v.id, d.0, d.1, d.2, d.3, e.2, e.3));
                     }
@@ -349,6 +354,9 @@ pub fn validate(fl: &Flat, out: &Value) -> (Vec<Finding>, Facts, Parsed) {
             let f = arr(d, "formation");
             if f.len() != 1 {
                 fnd(&mut fs, "C03", format!("top-level dead-head trip {:?} has a formation of {} vehicles", s(d, "id"), f.len()));
+            }
+            if !(fl.loc_by_id.contains_key(s(d, "origin")) && fl.loc_by_id.contains_key(s(d, "destination"))) {
+                continue; // overflow-depot leg
             }
             top.push((f.first().and_then(|x| x.as_str()).unwrap_or("").to_string(), s(d, "origin").to_string(), s(d, "destination").to_string()));
         }
